@@ -21,7 +21,8 @@ LEVEL_TEXT = ('Theorems in coq/theories/Properties/C12.v for every mask, every l
               'independence of the masked modes: fit(compose(c)) = c, remove = least-squares projection (residual fits to 0, '
               'idempotent, span -> 0, untouched outside the mask), fit linear, uniqueness of the least-squares solution. The '
               'model follows zernike.py (mask factor, coefficient k <-> Noll k+1, reshape/ravel, keyword passing and '
-              're-composition with the requested modes in zernike_remove, the (rho, theta) argument forms) and is run on the '
+              're-composition with the requested modes in zernike_remove, zernike_basis as cube / matrix, the (rho, theta) '
+              'argument forms, every refusal path with its exception) and is run on the '
               'same mode samples as lentil on every check; numpy pinv is replaced by a Gauss solver with pivot search whose '
               'answer is checked against the normal equations inside the model; the solver is proved sound and TOTAL on '
               'independent families (Lib/GaussTotal.v), so the statements about the executed instance are unconditional.')
@@ -61,6 +62,10 @@ RULE = ('masks: circle (centred/off-centre), hexagon (both orientations, shifted
         'oracle only; HIGH NOLL INDICES: modes drawn from 1..45 (unordered, gapped; permutations of 1..k), linear '
         'independence judged with the harness\'s own reference Noll modes so that modes made dependent by the '
         'implementation are reported instead of skipped; '
+        'ENTRY POINTS (op basis, 1/7 of the single-call cases + corpus/c12/entry_points.json): zernike_basis as cube and as '
+        'vectorised matrix compared for EXACT equality with the model (no arithmetic involved), empty lists of modes / '
+        'coefficients (refused by fit, remove and the vectorised basis, accepted by the cube and by compose), index < 1, '
+        'rho alone with and without a mode to evaluate; '
         'ILL-CONDITIONED independent sets (1 per quick run, ~20 per thorough run + corpus): a 5-7 px off-axis segment in '
         'the coordinates of its parent aperture inside 256..700 px arrays, 14-24 modes, 1e8 <= cond <= 1e12, round trip '
         'fit(compose(c)) = c at 1e-13 * cond (measured 0.12 eps cond on the unchanged code); SIGNED masks (every non-zero '
@@ -91,7 +96,7 @@ def model_cost(c):
         return sum(model_cost(sub) for sub in substeps(c))
     if isinstance(c['mask'], dict):
         return float('inf')       # large arrays (given by a recipe): exact arithmetic is out of reach, oracle only
-    if c['op'] == 'compose' or (c.get('expect_error') and c.get('opd_shape') != 'transposed'):
+    if c['op'] in ('compose', 'basis') or (c.get('expect_error') and c.get('opd_shape') != 'transposed'):
         return 0.1
     k = len(c['modes'])
     npix = sum(1 for row in c['mask'] for v in row if fr(v) != 0)
@@ -221,7 +226,11 @@ def prep(c):
          # truthy-but-not-True flags: np.bool_, 1 / 0
          'nrm_arg': {'np_bool': np.bool_(nrm), 'int': int(nrm)}.get(forms.get('nrm_form'), nrm)}
     w = [float(x * scale) for x in scatter(c['modes'], c['coeffs'], c.get('extra'))]
-    if c['op'] == 'compose':
+    if c['op'] == 'basis':
+        pass
+    elif c['op'] == 'compose':
+        if c.get('empty'):
+            w = []            # zernike_compose(mask, []): no mode is evaluated, the OPD is all zeros
         p['w'] = w
         p['w_arg'] = {'tuple': tuple(w), 'ndarray': np.array(w, dtype=float)}.get(forms.get('coeffs_form'), w)
     else:
@@ -767,7 +776,7 @@ def generate(rng, tier):
             STATS['histories'] = STATS.get('histories', 0) + 1
             yield c
             continue
-        op = rng.choice(['compose', 'compose', 'fit', 'fit', 'remove', 'remove'])
+        op = rng.choice(['compose', 'compose', 'fit', 'fit', 'remove', 'remove', 'basis'])
         c = {'op': op, 'mask_kind': kind, 'mask': mask, 'modes': modes,
              'coeffs': rnd_coeffs(rng, len(modes))}
         if all(isinstance(v, int) for row in mask for v in row):
@@ -777,12 +786,22 @@ def generate(rng, tier):
                 c['mask_dtype'] = rng.choice(['float', 'int', 'int32', 'int8'])
         if op != 'remove':
             c['nrm'] = rng.random() < 0.5
+        if op == 'basis':
+            c['vectorize'] = rng.random() < 0.5
+            c['coeffs'] = ['0'] * len(modes)
+        if rng.random() < 0.03:       # empty collections: no modes / no coefficients
+            c['modes'], c['coeffs'], c['empty'] = [], [], True
+            c['expect_error'] = op in ('fit', 'remove') or (op == 'basis' and c['vectorize'])
         if rng.random() < 0.4:
             n, m = len(mask), len(mask[0])
             c['crd'] = rnd_crd(rng, n, m)
         if rng.random() < 0.3:      # the unit of the coefficients: nanometres / picometres in metres, microns, ...
             c['scale'] = rng.choice(['1/1000000000', '1/1000000000', '1/1000000000000', '1/1000000', '1/1000', '250'])
-        if op != 'compose':
+        if op == 'basis' and not c.get('empty') and rng.random() < 0.06:
+            c['modes'] = list(c['modes']) + [rng.choice([0, -1])]
+            c['coeffs'] = c['coeffs'] + ['0']
+            c['expect_error'] = True
+        if op not in ('compose', 'basis'):
             n, m = len(mask), len(mask[0])
             if rng.random() < 0.6:     # content in modes that are not fitted / removed
                 c['extra'] = [rnd_frac(rng) if rng.random() < 0.5 else '0' for _ in range(rng.randint(1, 4 if tiny else 11))]
@@ -805,11 +824,11 @@ def generate(rng, tier):
         if rng.random() < 0.45:
             if rng.random() < 0.5:
                 forms['mask_layout'] = rng.choice(['F', 'strided', 'reversed'])
-            if op != 'compose' and rng.random() < 0.5:
+            if op not in ('compose', 'basis') and rng.random() < 0.5:
                 forms['opd_layout'] = rng.choice(['F', 'strided', 'reversed'])
             if rng.random() < 0.35:
                 forms['mask_container'] = rng.choice(['list', 'masked', 'masked_some', 'matrix', 'subclass', 'memmap'])
-            if op != 'compose' and rng.random() < 0.35:
+            if op not in ('compose', 'basis') and rng.random() < 0.35:
                 forms['opd_container'] = rng.choice(['list', 'masked', 'masked_some', 'matrix', 'subclass', 'memmap'])
             if op != 'remove' and rng.random() < 0.3:
                 forms['nrm_form'] = rng.choice(['np_bool', 'int'])
@@ -818,17 +837,17 @@ def generate(rng, tier):
                                                  + (['scalar', 'scalar0d', 'scalar'] if len(c['modes']) == 1 else []))
             if op == 'compose' and rng.random() < 0.5:
                 forms['coeffs_form'] = rng.choice(['tuple', 'ndarray'])
-            if op != 'compose' and not c.get('opd_shape') and rng.random() < 0.3:
+            if op not in ('compose', 'basis') and not c.get('opd_shape') and rng.random() < 0.3:
                 forms['opd_dtype'] = rng.choice(['float32', 'int']) if not c.get('scale') else 'float32'
         if c.get('crd') and rng.random() < 0.12:
             forms['crd_form'] = rng.choice(['rho_only', 'theta_only'])
-            if forms['crd_form'] == 'rho_only':
-                c['expect_error'] = True
+            if forms['crd_form'] == 'rho_only' and not c.get('empty'):
+                c['expect_error'] = True      # raised by the first mode evaluated (no mode, no error)
         if forms:
             c['forms'] = forms
             STATS['with_argument_forms'] = STATS.get('with_argument_forms', 0) + 1
         # ---- a repeated mode: the family is dependent, pinv returns the minimum-norm solution; decided by the oracle only
-        if op != 'compose' and not c.get('expect_error') and not c.get('opd_shape') and rng.random() < 0.04:
+        if op not in ('compose', 'basis') and not c.get('expect_error') and not c.get('opd_shape') and rng.random() < 0.04:
             distinct = list(c['modes'])
             if not well_conditioned(dict(c, modes=distinct)):
                 STATS['skipped_ill_conditioned'] += 1
@@ -838,7 +857,7 @@ def generate(rng, tier):
             c['coeffs'] = c['coeffs'][:pos] + [rnd_frac(rng)] + c['coeffs'][pos:]
             c['dependent'] = True
             STATS['dependent_oracle_only'] = STATS.get('dependent_oracle_only', 0) + 1
-        elif not c.get('expect_error') and not well_conditioned(dict(c, modes=[j for j in c['modes'] if j >= 1])):
+        elif op != 'basis' and not c.get('empty') and not c.get('expect_error') and not well_conditioned(dict(c, modes=[j for j in c['modes'] if j >= 1])):
             STATS['skipped_ill_conditioned'] += 1
             continue
         out += 1
@@ -927,6 +946,10 @@ def encode_prepared(c, p):
         w = p['w']
         tbl = enc_table(p, [(p['nrm'], j) for j in range(1, len(w) + 1)], crdflag)
         return [2] + enc_mask(c) + C.enc_list(w, lambda x: C.enc_q(float(x))) + [1 if p['nrm'] else 0, crdarg] + tbl
+    if c['op'] == 'basis':
+        tbl = enc_table(p, [(p['nrm'], j) for j in good], crdflag)
+        return ([5] + enc_mask(c) + C.enc_list(modes, lambda x: [x])
+                + [1 if c.get('vectorize') else 0, 1 if p['nrm'] else 0, crdarg] + tbl)
     if c['op'] == 'fit':
         tbl = enc_table(p, [(p['nrm'], j) for j in good], crdflag)
         return ([1] + enc_arr(p['y']) + enc_mask(c) + C.enc_list(modes, lambda x: [x])
@@ -953,6 +976,11 @@ def decode(c, ints):
         return {'err': C.ERRNAMES[rd.z()]}
     if c['op'] == 'fit':
         return {'coeffs': [float(x) for x in rd.lst(rd.q)]}
+    if c['op'] == 'basis':
+        if rd.z() == 0:       # the cube: a list of 2-d arrays
+            cube = rd.lst(lambda: rd.arr(rd.q))
+            return {'cube': [[[float(x) for x in row] for row in a] for a in cube]}
+        return {'arr': [[float(x) for x in row] for row in rd.arr(rd.q)]}
     a = rd.arr(rd.q)
     return {'arr': [[float(x) for x in row] for row in a]}
 
@@ -988,9 +1016,15 @@ def run_impl_single(c):
         mask, modes, rho, theta, nrm = p['mask_arg'], p['modes_arg'], p['rho_arg'], p['theta_arg'], p['nrm_arg']
         mask0 = np.array(np.asarray(mask), copy=True)
         outside = p['mask'] == 0
+        if c['op'] == 'basis':
+            B = lentil.zernike_basis(mask, modes, bool(c.get('vectorize')), nrm, rho, theta)
+            return {'arr': np.asarray(B, dtype=float), 'shape': [int(x) for x in np.shape(B)], 'dtype': str(np.asarray(B).dtype),
+                    'input_changed': not np.array_equal(np.asarray(mask), mask0)}
         if c['op'] == 'compose':
             opd = lentil.zernike_compose(mask, p['w_arg'], nrm, rho, theta)
             res = {'arr': np.asarray(opd, dtype=float)}
+            if c.get('empty'):
+                return res
             try:    # the round trips of the property, on the implementation alone
                 res['hom'] = np.asarray(lentil.zernike_compose(mask, [x * HOM for x in p['w']], nrm, rho, theta), dtype=float)
                 res['fit'] = np.asarray(lentil.zernike_fit(opd, mask, modes, nrm, rho, theta), dtype=float)
@@ -1069,6 +1103,8 @@ def close_each(got, want, cond, what):
 
 
 def magnitude(c, p):
+    if c['op'] == 'basis':
+        return 1.0
     if c['op'] == 'compose':
         return max([abs(x) for x in p['w']] + [1e-300])
     return max(float(np.max(np.abs(p['y']))) if p['y'].size else 0.0, 1e-300)
@@ -1102,10 +1138,21 @@ def compare(c, impl, model):
     # the modelling assumption "zernike(mask, j) = bool(mask) * zernike(ones, j)" on this very case, through zernike_basis
     good = [j for j in c['modes'] if j >= 1]
     nrm = True if c['op'] == 'remove' else p['nrm']
-    B = masked_basis(c, p, good, nrm).reshape(len(good), *p['mask'].shape)
+    B = masked_basis(c, p, good, nrm).reshape(len(good), *p['mask'].shape) if good else np.zeros((0,) + p['mask'].shape)
     for i, j in enumerate(good):
         if not np.array_equal(B[i], np.where(p['mask'] != 0, mode_samples(p, j, nrm), 0.0)):
             return f'zernike_basis row for mode {j} is not bool(mask) * zernike(ones, {j}) (mask application differs from the model)'
+    if c['op'] == 'basis':
+        n, m = p['mask'].shape
+        k = len(c['modes'])
+        want = np.array(model['cube'], dtype=float).reshape(k, n, m) if 'cube' in model else np.array(model['arr'], dtype=float).reshape(k, n * m)
+        got = np.asarray(unwrap(impl['arr']))
+        if got.shape != want.shape:
+            return f'zernike_basis: shape {got.shape}, model {want.shape}'
+        if not np.array_equal(got, want):          # no arithmetic happens here: the samples must be identical
+            i = np.unravel_index(np.argmax(np.abs(got - want)), got.shape)
+            return f'zernike_basis differs from the model at {tuple(int(x) for x in i)}: {got[i]!r} vs {want[i]!r}'
+        return None
     s = magnitude(c, p)
     if c['op'] == 'fit':
         sc = max(s, max([abs(x) for x in model['coeffs']] + [0.0]))
@@ -1152,8 +1199,24 @@ def oracle(c, impl):
             return (f'the modes {modes} delivered by zernike() are linearly dependent on this mask (condition number '
                     f'{cond:.3g}) although the Noll modes are independent there (condition number {cref:.3g}): '
                     f'fit / compose / remove cannot be mutually inverse')
-    bn = float(np.max(np.abs(B))) or 1.0
+    bn = (float(np.max(np.abs(B))) if B.size else 0.0) or 1.0
     cs = sum_scale(want, B)                          # expected magnitude of sum_i c_i Z_{modes_i}
+    if c['op'] == 'basis':
+        got = np.asarray(unwrap(impl['arr']))
+        k = len(modes)
+        want_shape = (k, mask.size) if c.get('vectorize') else (k,) + mask.shape
+        if tuple(impl['shape']) != want_shape:
+            return f'zernike_basis(vectorize={bool(c.get("vectorize"))}) has shape {tuple(impl["shape"])}, expected {want_shape}'
+        if impl['dtype'] != 'float64':
+            return f'zernike_basis returns dtype {impl["dtype"]} (the modes are truncated or widened), expected float64'
+        if impl.get('input_changed'):
+            return 'zernike_basis modified the caller\'s mask'
+        if not np.array_equal(got.reshape(k, mask.size), B):
+            return f'zernike_basis(mask, {modes}) is not the stack of zernike(mask, j) in the order requested'
+        return None
+    if c['op'] == 'compose' and c.get('empty'):
+        opd = np.asarray(unwrap(impl['arr']))
+        return None if opd.shape == mask.shape and not np.any(opd) else 'zernike_compose(mask, []) is not the all-zero OPD'
     if c['op'] == 'compose':
         w = p['w']
         opd = np.asarray(unwrap(impl['arr']))
@@ -1247,37 +1310,3 @@ def oracle(c, impl):
 
 def extra(tier, rng):
     return {'report': dict(STATS, cond_max=COND_MAX), 'violations': []}
-
-
-
-# ------------------------------------------------------------------ WP-T4: translation layer (source -> Gallina)
-# An ADDITIONAL tie (DESIGN 10.3): harness/gen_src.py (suite 'C12') translates the array bookkeeping of lentil/zernike.py:zernike_basis and zernike_compose (basis cube shape, vectorised reshape, coefficient k -> mode k + 1)
-# from the CURRENT source text into coq/theories/Gen/ZernikeFitSrc.v; Proofs/ZernikeFitSrcP.v proves every translated term equal to the model for
-# all integers; Properties/C12Src.v states it.  Policy: a function the translator refuses is only reported; a
-# translated function whose equivalence lemma no longer compiles is compared with the model mirror on sampled points,
-# an exhaustive small box and random points - a found disagreement is a VIOLATION with that witness (replayable: op
-# 'src'), none found is reported as unproved.  The build of C12Src happens here, never in COQ_TARGETS.
-_extra_before_src_layer = extra
-
-
-def extra(tier, rng):
-    from .. import gen_src as G
-    try:
-        base = _extra_before_src_layer(tier, rng)
-    except Exception as e:          # keep the translation layer's verdict when the other checks cannot even run
-        import traceback
-        base = {'report': {'error': traceback.format_exc()[-800:]},
-                'violations': [{'case': None, 'impl': None,
-                                'what': f'extra: the checks preceding the translation layer raised {type(e).__name__}: {e}'}]}
-    layer = G.run_layer('C12', ID, tier, rng, C)
-    report = dict(base.get('report', {}))
-    report['source_translation'] = layer['report']
-    return {'report': report, 'violations': list(base.get('violations', [])) + layer['violations']}
-
-
-def _wrap_src_replay():
-    from .. import gen_src as G
-    return G.wrap_replay(run_impl, oracle, C)
-
-
-run_impl, oracle = _wrap_src_replay()
